@@ -429,12 +429,35 @@ func (ex *Exec) applyContract(fr *Frame, st *State, fc *FuncContract, fn *ssa.Fu
 	for _, e := range fc.Ensures {
 		c, err := post.evalBool(e.Expr)
 		if err != nil {
+			if mentionsCalleeLocal(fn, err) {
+				// a postcondition over the callee's own local variables is
+				// proved on the callee's body; a caller cannot use it
+				continue
+			}
 			ex.contractProblem("%s: ensures of %s: %v", e.Pos, fc.Name, err)
 			continue
 		}
 		ex.assume(st.PC, c)
 	}
 	return res
+}
+
+// mentionsCalleeLocal: the evaluation error is about an identifier that is a
+// local variable of fn.
+func mentionsCalleeLocal(fn *ssa.Function, err error) bool {
+	const pfx = "unknown identifier "
+	msg := err.Error()
+	i := strings.Index(msg, pfx)
+	if fn == nil || i < 0 {
+		return false
+	}
+	name := strings.TrimSpace(msg[i+len(pfx):])
+	for _, l := range fn.Locals {
+		if l.Comment == name {
+			return true
+		}
+	}
+	return false
 }
 
 func fnPos(fn *ssa.Function) token.Pos {
@@ -1031,7 +1054,7 @@ func (ex *Exec) enterLoop(fr *Frame, li *loopInfo, st *State) {
 	hasCall := false
 	for b := range li.body {
 		for _, ins := range b.Instrs {
-			ex.prog.Pre.instrWrites(fr.fn, ins, ws)
+			ex.prog.Pre.instrWritesIn(fr.fn, ins, ws, li.body)
 			switch x := ins.(type) {
 			case *ssa.Store:
 				if c := ex.rootCell(fr, x.Addr); c != nil {
